@@ -58,6 +58,14 @@ class CallSite:
         s = self.span
         return "%s:%d:%d" % (s["file"], s["line"], s["col"])
 
+    def arg_values(self):
+        """arguments, with a reference to a local replaced by a reference to the value it held at the call"""
+        out = []
+        pb = getattr(self, "pointee_before", None) or [None] * len(self.args)
+        for a, v in zip(self.args, pb):
+            out.append(T.refval(v) if (a.op == "ref" and v is not None) else a)
+        return out
+
 
 class State:
     __slots__ = ("env", "facts")
@@ -399,7 +407,7 @@ class FnAnalysis:
                     names = ["Some", "None"] if inner_opt else ["Ok", "Err"]
                     x = a[0]
                     continue
-                if f == "option::Option::ok_or" and set(names) == {"Ok", "Err"}:
+                if f in ("option::Option::ok_or", "option::Option::ok_or_else") and set(names) == {"Ok", "Err"}:
                     names = ["Some" if n == "Ok" else "None" for n in names]
                     x = a[0]
                     continue
